@@ -129,37 +129,67 @@ def fn_lines(src):
     return owner
 
 
+class _So(object):
+    def __init__(self, d):
+        self.dir = d
+
+
+def _cc(r, flags, outdir):
+    """C-compile the generated file of a cython_only BuildResult the way cybuild.py does (same compiler, flags
+    and sanitizer settings as recorded in the build request), plus `flags`.  -> (ok, dir, errors)"""
+    with open(os.path.join(r.dir, "req.json")) as f:
+        req = json.load(f)
+    d = os.path.join(outdir, r.name + "_so")
+    os.makedirs(d, exist_ok=True)
+    cplus = bool(req["options"].get("cplus"))
+    cc = req.get("cc") or ("g++" if cplus else "gcc")
+    so = os.path.join(d, r.name + req["suffix"])
+    cmd = [cc, "-O0", "-w", "-fPIC", "-shared", "-fno-strict-aliasing", "-I" + req["include"], "-I" + r.dir] + \
+        list(req["cflags"]) + list(flags) + [r.c_file, "-o", so] + list(req.get("ldflags") or [])
+    p = subprocess.run(cmd, capture_output=True, text=True)
+    return p.returncode == 0, d, (p.stdout + p.stderr)[-3000:]
+
+
 def build_modules(mods, tier, jobs):
-    """nanny + plain builds of every module; functions the compiler rejects are dropped (and reported).
-    -> {modname: {"funcs":..., "src":..., "nanny": BuildResult, "plain": BuildResult}}, rejected list"""
+    """Every module is translated by Cython once and C-compiled twice (with and without CYTHON_REFNANNY);
+    functions the compiler rejects are dropped (and reported).
+    -> {modname: {"funcs":..., "src":..., "nanny": dir holder, "plain": dir holder}}, rejected list"""
     state = {m: {"funcs": list(f)} for m, f in mods}
     rejected = []
     pending = [m for m, _ in mods]
+
+    def one(m):
+        st = state[m]
+        st["src"] = lr.render_module(st["funcs"])
+        opts = {"global_options": {"error_on_uninitialized": False}}
+        r = core.build_one(core.BuildSpec(m, st["src"], kind="py", options=opts, cython_only=True), core.subdir("b_cy"), 1500)
+        st["cy"] = r
+        if not r.ok:
+            return
+        with concurrent.futures.ThreadPoolExecutor(max_workers=2) as ex2:
+            f1 = ex2.submit(_cc, r, ["-DCYTHON_REFNANNY=1"], core.subdir("b_nanny"))
+            f2 = ex2.submit(_cc, r, [], core.subdir("b_plain"))
+            for kind, fu in (("nanny", f1), ("plain", f2)):
+                ok, d, err = fu.result()
+                if not ok:
+                    core.die("C35: C compilation (%s) of %s failed: %s" % (kind, m, err))
+                st[kind] = _So(d)
+
     for rnd in range(4):
-        specs = []
-        for m in pending:
-            st = state[m]
-            st["src"] = lr.render_module(st["funcs"])
-            opts = {"global_options": {"error_on_uninitialized": False}}
-            specs.append(("nanny", core.BuildSpec(m, st["src"], kind="py", cflags=["-DCYTHON_REFNANNY=1"], options=opts)))
-            specs.append(("plain", core.BuildSpec(m, st["src"], kind="py", options=opts)))
         with concurrent.futures.ThreadPoolExecutor(max_workers=jobs) as ex:
-            futs = [(kind, sp, ex.submit(core.build_one, sp, core.subdir("b_" + kind), 1500)) for kind, sp in specs]
-            for kind, sp, fu in futs:
-                state[sp.name][kind] = fu.result()
+            list(ex.map(one, pending))
         again = []
         for m in pending:
             st = state[m]
-            bad = [st[k] for k in ("nanny", "plain") if not st[k].ok]
-            if not bad:
+            r = st["cy"]
+            if r.ok:
                 continue
-            r = bad[0]
             if r.stage != "cython":
                 core.die("C35: build of %s failed at stage %s: %s" % (m, r.stage, (r.errors or "")[-1500:]))
             owner = fn_lines(st["src"])
             blamed = set()
             for line in (r.errors or "").splitlines():
-                mm = re.match(r"(?!warning:).*?%s\.py:(\d+):\d+: (.*)" % re.escape(m), line)
+                mm = re.match(r".*?%s\.py:(\d+):\d+: (.*)" % re.escape(m), line)
                 if mm and not line.startswith("warning"):
                     fn = owner.get(int(mm.group(1)))
                     if fn:
@@ -369,32 +399,40 @@ def run(tier, seed):
     with open(dirs["driver"], "w") as f:
         f.write(lr.DRIVER)
 
-    with concurrent.futures.ThreadPoolExecutor(max_workers=2) as ex:
-        fn_n = ex.submit(build_nannies)
-        state, rejected = build_modules(mods, tier, jobs)
-        dirs["rec"], dirs["stock"] = fn_n.result()
+    # the CPython leg needs the sources only: it runs while the modules are built
+    all_cases = {}
+    for m, fs in mods:
+        with open(os.path.join(dirs["src"], m + ".py"), "w") as f:
+            f.write(lr.render_module(fs))
+        all_cases[m] = [[fn, k] for fn, _, _ in fs for (p, k) in sorted(cases) if p == fmeta[fn][0]]
+    obs = {leg: {} for leg in ("P",) + LEGS}
+    pool = concurrent.futures.ThreadPoolExecutor(max_workers=jobs)
+    pfuts = [pool.submit(run_leg, "P", m, all_cases[m], dirs) for m, _ in mods]
+    fn_n = pool.submit(build_nannies)
+    state, rejected = build_modules(mods, tier, jobs)
+    dirs["rec"], dirs["stock"] = fn_n.result()
     _phase("builds done (%d modules, %d rejected functions)" % (len(state), len(rejected)))
     dirs["nanny"] = {m: state[m]["nanny"].dir for m in state}
     dirs["plain"] = {m: state[m]["plain"].dir for m in state}
     mod_cases = {}
     for m, st in state.items():
-        with open(os.path.join(dirs["src"], m + ".py"), "w") as f:
-            f.write(st["src"])
-        cs = []
-        for fn, _, _ in st["funcs"]:
-            pid = fmeta[fn][0]
-            cs += [[fn, k] for (p, k) in sorted(cases) if p == pid]
-        mod_cases[m] = cs
+        keep = set(fn for fn, _, _ in st["funcs"])
+        mod_cases[m] = [c for c in all_cases[m] if c[0] in keep]
 
-    # ---- the legs
-    legs = ("P",) + LEGS
-    obs = {leg: {} for leg in legs}
-    with concurrent.futures.ThreadPoolExecutor(max_workers=jobs) as ex:
-        futs = {(leg, m): ex.submit(run_leg, leg, m, mod_cases[m], dirs) for leg in legs for m in state}
-        for (leg, m), fu in futs.items():
+    # ---- the compiled legs; the event streams of the recorder leg are validated while the others run
+    futs = {(leg, m): pool.submit(run_leg, leg, m, mod_cases[m], dirs) for leg in LEGS for m in state}
+    for fu in pfuts:
+        obs["P"].update(fu.result())
+    for m in state:
+        obs["recorder"].update(futs[("recorder", m)].result())
+    _phase("recorder leg done")
+    traces = {key: o["trace"] for key, o in obs["recorder"].items() if o.get("trace") is not None}
+    tfut = pool.submit(validate_traces, traces, tier, rng, workers)
+    for (leg, m), fu in futs.items():
+        if leg != "recorder":
             obs[leg].update(fu.result())
-
     _phase("legs done")
+
     # ---- S vs P
     n_cases = 0
     for m in state:
@@ -410,8 +448,7 @@ def run(tier, seed):
                                 "cpython": got and {f: got.get(f) for f in FIELDS + ("alive", "left")}})
 
     # ---- B2: the recorded event streams
-    traces = {key: o["trace"] for key, o in obs["recorder"].items() if o.get("trace") is not None}
-    judged, tr, n_tlc, tdrift, n_corrupt, undetected = validate_traces(traces, tier, rng, workers)
+    judged, tr, n_tlc, tdrift, n_corrupt, undetected = tfut.result()
     for d in tdrift[:10]:
         rep.spec_drift("trace automaton: TLC and its transcription disagree", d)
     if undetected:
@@ -420,27 +457,29 @@ def run(tier, seed):
         obs["recorder"][key]["judge"] = j
     _phase("traces validated (%d by TLC)" % n_tlc)
 
-    # ---- the plain build has no nanny to withhold a bad DECREF: a mismatch there is re-run in isolation
+    # ---- the plain build has no nanny to withhold a bad DECREF, so a case can be disturbed by an earlier one: a
+    # deviation of the plain leg that the recorder leg does not show in the same way is re-run in a child of its own
     redo = []
     for m in state:
         for fn, k in mod_cases[m]:
             want = cases[(fmeta[fn][0], k)]
-            got = obs["plain"].get((fn, k))
-            if classify(want, got, "plain") not in ([], ["crash"]):
+            cp = classify(want, obs["plain"].get((fn, k)), "plain")
+            cr = [c for c in classify(want, obs["recorder"].get((fn, k)), "recorder") if not c.startswith("nanny-")]
+            if cp and cp != ["crash"] and cp != cr:
                 redo.append((m, fn, k))
-    redo = redo[:150]
+    redo = redo[:60]
     if redo:
-        with concurrent.futures.ThreadPoolExecutor(max_workers=jobs) as ex:
-            futs = [(x, ex.submit(run_leg, "plain", x[0], [[x[1], x[2]]], dirs, 120)) for x in redo]
-            for (m, fn, k), fu in futs:
-                o = fu.result().get((fn, k))
-                if o is not None:
-                    o["isolated"] = True
-                    o["in_batch"] = {f: obs["plain"][(fn, k)].get(f) for f in FIELDS + ("alive", "left")}
-                    obs["plain"][(fn, k)] = o
-
+        rf = [(x, pool.submit(run_leg, "plain", x[0], [[x[1], x[2]]], dirs, 120)) for x in redo]
+        for (m, fn, k), fu in rf:
+            o = fu.result().get((fn, k))
+            if o is not None:
+                o["isolated"] = True
+                o["in_batch"] = {f: obs["plain"][(fn, k)].get(f) for f in FIELDS + ("alive", "left")}
+                obs["plain"][(fn, k)] = o
+    pool.shutdown()
     _phase("isolated re-runs done (%d)" % len(redo))
     # ---- S vs C
+    all_dis = []
     agree = 0
     evaluations = 0
     per_class = collections.Counter()
@@ -466,7 +505,8 @@ def run(tier, seed):
                                                                              "isolated", "in_batch")},
                           "replay": "build the source with -DCYTHON_REFNANNY=1 (legs recorder/stock) and call f(T('a',True), "
                                     "T('b',False)) with c35rt.reset(k)"}
-                rep.disagree(descriptor(want, variant, leg), oc, detail)
+                verdict = rep.disagree(descriptor(want, variant, leg), oc, detail)
+                all_dis.append((dict(descriptor(want, variant, leg), obs_class=oc), verdict, detail))
             if k > 0 or want["exc"] or len(want["alive"]) > 2:
                 nontrivial.add((pid, k))
     for s in core.sample(states, 4, rng):
@@ -494,6 +534,9 @@ def run(tier, seed):
     if tried == 0 or caught != tried:
         core.die("C35: binding self-test failed: %d of %d corrupted expectations rejected" % (caught, tried))
 
+    if os.environ.get("C35_DUMP"):
+        with open(os.environ["C35_DUMP"], "w") as f:
+            json.dump(all_dis, f, default=str)
     rc = rep.finish()
     wall = time.time() - t0
     cov = {
